@@ -3,7 +3,7 @@
    hash model in Model.PyHash. *)
 From Coq Require Import String ZArith List Bool Permutation.
 From Model Require Import PyBase Graph PyHash Fingerprint FingerprintCGR LinearSmiles.
-From Proofs Require Import FingerprintProofs FingerprintCGRProofs MorganNbhd LinearSmilesProofs.
+From Proofs Require Import FingerprintProofs FingerprintCGRProofs MorganNbhd LinearSmilesProofs LinearSmilesFixed.
 Import ListNotations.
 Open Scope Z_scope.
 
@@ -518,3 +518,39 @@ Theorem C17_lhs_numbering_independent_unfold : forall f, lhs_numbering_independe
       In str (sget (f fa' fb' h (atom_identifiers (rename_mol s g)) (rename_mol s g) chs' nbp) k).
 Proof. exact (fun f => iff_refl _). Qed.
 Print Assumptions C17_lhs_numbering_independent_unfold.
+
+(* the suggested fix (lhs_of_fixed: spell EVERY chain of the fragment, both directions when the key is a palindrome) has the
+   property the code lacks, for every renumbering, every pair of spelling functions that agree on corresponding atoms and
+   bonds and EVERY iteration order of the two chain sets ... *)
+Theorem C17_linear_hash_smiles_fixed_numbering_independent : lhs_numbering_independent linear_hash_smiles_fixed_with.
+Proof. exact linear_hash_smiles_fixed_numbering_independent. Qed.
+Print Assumptions C17_linear_hash_smiles_fixed_numbering_independent.
+
+(* ... and does not depend on the iteration order of the chain set *)
+Theorem C17_linear_hash_smiles_fixed_order_independent :
+  forall (fa : Z -> string) (fb : Z -> Z -> string) (h : list Z -> Z) g nbp chs chs',
+  wf_mol g = true -> Permutation chs chs' -> forall k str,
+  In str (sget (linear_hash_smiles_fixed_with fa fb h (atom_identifiers g) g chs nbp) k) <->
+  In str (sget (linear_hash_smiles_fixed_with fa fb h (atom_identifiers g) g chs' nbp) k).
+Proof. exact linear_hash_smiles_fixed_order_independent. Qed.
+Print Assumptions C17_linear_hash_smiles_fixed_order_independent.
+
+(* what the dictionary of the fix holds: key x has the spellings (of the directions that spell the key) of all chains of
+   every fragment key k one of whose hashes h(k, c), c < min(count, cap), is x *)
+Theorem C17_fixed_get : forall (idf : Z -> Z) (ord : Z -> Z -> Z), (forall x y, ord x y = ord y x) ->
+  forall (fa : Z -> string) (fb : Z -> Z -> string) (h : list Z -> Z) nbp chs x str,
+  In str (sget (lhs_of_fixed fa fb h nbp (fragments_of idf ord chs)) x) <->
+  exists k c, x = h (k ++ [c]) /\ 0 <= c < Z.min (Z.of_nat (key_count idf ord chs k)) (cap nbp) /\
+    exists p q, In p chs /\ frag_key idf ord p = k /\ (q = p \/ q = rev p) /\ frag_var idf ord q = k /\ str = spell fa fb q.
+Proof. exact fixed_get. Qed.
+Print Assumptions C17_fixed_get.
+
+Theorem C17_lhs_witness_fixed_values :
+  linear_hash_smiles_fixed_with w_fa w_fb hash_ztuple (atom_identifiers w_mol) w_mol w_chs 4 =
+    [(4844287390989025609, ["C"%string]); (8876755388055710236, ["[O-]"%string; "[OH-]"%string]);
+     (-3062347929551842955, ["[O-]"%string; "[OH-]"%string])] /\
+  linear_hash_smiles_fixed_with w_fa' w_fb hash_ztuple (atom_identifiers (rename_mol w_swap w_mol)) (rename_mol w_swap w_mol) w_chs 4 =
+    [(4844287390989025609, ["C"%string]); (8876755388055710236, ["[OH-]"%string; "[O-]"%string]);
+     (-3062347929551842955, ["[OH-]"%string; "[O-]"%string])].
+Proof. exact witness_fixed_values. Qed.
+Print Assumptions C17_lhs_witness_fixed_values.
